@@ -272,7 +272,11 @@ pub fn run_c07(ctx: &mut Ctx) {
         let k = 260 + rng.usize_below(60);
         let mc = 1 + rng.usize_below(100);
         let b = *rng.pick(&[64usize, 256, 1024]);
-        let plans: Vec<ReqPlan> = (0..k).map(|i| gen_req(&mut rng, true, if i % 37 == 5 { 1 } else { 0 }, mc, b, true)).collect();
+        // every request lets the connection live on and leaves nothing unread (a Responder that reads its input to the end and returns Ok);
+        // ids are pairwise distinct so that the oracle can attribute every reply
+        let mut ids = std::collections::BTreeSet::new();
+        let plans: Vec<ReqPlan> = (0..k).map(|i| loop { let p = gen_req(&mut rng, true, if i % 37 == 5 { 1 } else { 0 }, mc, b, false);
+            if matches!(p.ret, Ret::Ok(..)) && p.pre.flags & 1 == 1 && p.pre.role == 1 && p.script.starts_with('R') && !p.tail_noise && ids.insert(p.pre.id) { break p; } }).collect();
         let end = if li % 2 == 0 { "pend" } else { "eof" };
         let op = conn_op(&plans, b, mc, end, &rd_script(&mut rng, 20), &wr_script(&mut rng, 20, false), "-", "none", true);
         log.case(&format!("c07-long-{li}"));
